@@ -158,6 +158,11 @@ func (C12) Generate(c *Ctx, r *Rand, index int) *Scenario {
 		sc.Meta["expr_alts"] = as
 	}
 	sc.TmpOther = c.W.DiskRoot != "" && rs.Chance(3, 10)
+	sc.TmpMissing = rs.Chance(1, 15)
+	if rs.Chance(1, 20) {
+		// colours forced into the file: the same bytes as without -i
+		sc.Argv = append([]string{"-C"}, sc.Argv...)
+	}
 	// second, hook-free fault layer: the real rename(2) is made to fail at the
 	// syscall boundary, which sends yq into the fallback on one file system too
 	straceOdds := 25
